@@ -889,9 +889,13 @@ func genWeatherFault(sc *Scenario, r *Rng) {
 	case "gap":
 		from = r.Range(s0+30, e0-45)
 		to = from + r.Range(0, 40)
+		if r.Bool(0.25) {
+			to = Date{DateOfZeit(from).Y, 12, 31}.Zeit() // year-end gap
+			from = to - r.Range(0, 20)
+		}
 		// keep the gap inside one calendar year and off its first/last day (a clean "missing days" case)
 		fy := DateOfZeit(from).Y
-		lo, hi := Date{fy, 1, 2}.Zeit(), Date{fy, 12, 30}.Zeit()
+		lo, hi := Date{fy, 1, 2}.Zeit(), Date{fy, 12, 31}.Zeit() // a gap may reach the last day of the year
 		if from < lo {
 			from = lo
 		}
